@@ -23,9 +23,8 @@ def run(ctx):
     for kc in inv:
         geometry(ctx, kc, "C04.geometry")
     r.floor("C04.geometry.groups", 80)
-    if ctx.thorough:
-        for kc in generic_classes(ctx, enzymes_for_tier(ctx)):
-            geometry(ctx, kc, "C04.generic-geometry")
+    for kc in generic_classes(ctx, enzymes_for_tier(ctx)):
+        geometry(ctx, kc, "C04.generic-geometry")
     n_screen = 0
     for kc in inv:
         if kc.role != "module":
@@ -59,3 +58,5 @@ def run(ctx):
     # every class must compile the pattern of its own structure(): what the accepted language rests on
     from ..rules_ast import persistent_state_rule
     ctx.guard(persistent_state_rule, ctx, "C04.own-pattern")
+    from ..rules_misc import text_consumers_rule
+    ctx.guard(text_consumers_rule, ctx, "C04.text-consumers")
